@@ -2,7 +2,7 @@
    producers, the pipeline stages of both packers, pack flushes and the two writer
    threads (a superset of the schedules the real thread pools can produce). *)
 From Verif.Base Require Import Tactics.
-From Verif.C13 Require Import Extracted Model Proofs Proofs2 Walker ProofsW ProofsW2.
+From Verif.C13 Require Import Extracted Model Proofs Proofs2 Walker ProofsW ProofsW2 ProofsW3.
 Local Open Scope nat_scope.
 
 (* Every id handed to a packer can be found by the indexer at the end of every complete
@@ -128,3 +128,12 @@ Theorem walker_step_decreases : forall U ch c roots s e s',
   wmeasure U ch s' < wmeasure U ch s.
 Proof. exact walker_step_decreases_lemma. Qed.
 Print Assumptions walker_step_decreases.
+
+(* Each tree is handed to the caller at most once, only after it was registered as visited, and
+   a delivered tree is never queued again - in every reachable state of every interleaving. *)
+Theorem walker_delivers_once : forall ch c roots s,
+  wreach ch c roots s ->
+  NoDup (delivered s) /\ incl (delivered s) (visited s) /\
+  (forall x, In x (delivered s) -> ~ In x (q_in s) /\ ~ In x (q_out s)).
+Proof. exact walker_delivers_once_lemma. Qed.
+Print Assumptions walker_delivers_once.
